@@ -92,6 +92,12 @@ func (n *Net) SetDead(host string, dead bool) {
 	}
 }
 
+func (n *Net) isDead(host string) bool {
+	n.mu.Lock()
+	defer n.mu.Unlock()
+	return n.dead[host]
+}
+
 func (n *Net) SetMaxDelay(d time.Duration) {
 	n.mu.Lock()
 	defer n.mu.Unlock()
@@ -188,7 +194,9 @@ func (c *netConn) SendMessageBatch(batch pb.MessageBatch) error {
 	if atomic.LoadInt32(&c.t.closed) == 1 {
 		return errUnreachable
 	}
-	if f := c.t.net.OnSend; f != nil {
+	if f := c.t.net.OnSend; f != nil && !c.t.net.isDead(c.t.addr) {
+		// (a host whose power is off sends nothing: what its dying process still
+		// hands to the transport never leaves)
 		for _, m := range batch.Requests {
 			f(c.t.addr, c.target, m)
 		}
